@@ -6,6 +6,7 @@ import (
 	"crypto/cipher"
 	"fmt"
 	"math/big"
+	"sync"
 
 	"go.dedis.ch/kyber/v4"
 	"go.dedis.ch/kyber/v4/xof/blake2xb"
@@ -213,6 +214,62 @@ func markVT(gi *GroupInfo, p kyber.Point) kyber.Point {
 	return p
 }
 
+var (
+	shortCoordMu  sync.Mutex
+	shortCoordTab = map[string][]int{}
+)
+
+// shortCoordMultipliers: the k in 1..3000 for which the encoding of k*B has a zero byte at the start
+// of a coordinate (none for groups whose encoding layout the harness does not know, and for GT).
+func shortCoordMultipliers(gi *GroupInfo) []int {
+	shortCoordMu.Lock()
+	defer shortCoordMu.Unlock()
+	if ks, ok := shortCoordTab[gi.Name]; ok {
+		return ks
+	}
+	var offs []int
+	mask := byte(0xff)
+	last := false // coordinate stored little-endian: its top byte is the LAST byte of the chunk
+	n := gi.G.PointLen()
+	switch {
+	case gi.Role == 3 || !gi.HasBase:
+	case gi.Family == "p256":
+		offs = []int{1, 33}
+	case gi.Family == "bn256" || gi.Family == "bn254":
+		for o := 0; o < n; o += 32 {
+			offs = append(offs, o)
+		}
+	case gi.Family == "bls-kilic" || gi.Family == "bls-circl" || gi.Family == "bls-gnark":
+		mask = 0x1f // the three top bits of the first byte are flags
+		for o := 0; o < n; o += 48 {
+			offs = append(offs, o)
+		}
+	case gi.Family == "ed25519" || (gi.Family == "edvar" && n == 32):
+		offs, mask, last = []int{31}, 0x7f, true
+	case gi.Family == "qr512":
+		offs = []int{0}
+	}
+	_ = last
+	var ks []int
+	if len(offs) > 0 {
+		B := basePoint(gi)
+		P := gi.G.Point().Set(B)
+		for k := 1; k <= 3000 && len(ks) < 40; k++ {
+			if b, err := P.MarshalBinary(); err == nil {
+				for _, o := range offs {
+					if o < len(b) && b[o]&mask == 0 {
+						ks = append(ks, k)
+						break
+					}
+				}
+			}
+			P = gi.G.Point().Add(P, B)
+		}
+	}
+	shortCoordTab[gi.Name] = ks
+	return ks
+}
+
 // newPoint: a fresh receiver of gi; for the AllowVarTime instance the RECEIVER carries the flag
 // (the variable-time code paths are chosen by the receiver, not by the operands).
 func newPoint(gi *GroupInfo) kyber.Point { return markVT(gi, gi.G.Point()) }
@@ -252,10 +309,21 @@ func genPointD(t *rapid.T, gi *GroupInfo, label string, depth int) PVal {
 	if depth > 0 {
 		classes = append(classes, "sum", "sum", "diff", "dbl", "mulof")
 	}
+	if len(shortCoordMultipliers(gi)) > 0 {
+		classes = append(classes, "shortcoord")
+	}
 	cls := rapid.SampledFrom(classes).Draw(t, label+".class")
 	g := gi.G
 	pv := PVal{Class: cls}
 	switch cls {
+	case "shortcoord":
+		// a multiple of the base point one of whose encoded coordinates starts with a zero byte (a
+		// 1/256 event per coordinate for random points; encoders that pad and decoders that compare
+		// limb-wise are wrong exactly there)
+		ks := shortCoordMultipliers(gi)
+		k := ks[uniformInt(t, 0, len(ks)-1, label+".sck")]
+		pv.P = mulPoint(gi, g.Scalar().SetInt64(int64(k)), basePoint(gi))
+		pv.Desc, pv.Edge = fmt.Sprintf("%d*B[short coordinate]", k), true
 	case "null":
 		pv.P, pv.Desc, pv.Edge = nullPoint(gi), "O", true
 	case "base":
